@@ -234,7 +234,7 @@ def rule_OP3(ctx, rep):
                         and isinstance(inner.left.func, ast.Attribute) and inner.left.func.attr == 'bit_length' and not inner.left.args:
                     recv = inner.left.func.value
                     pmx = parents(fn.node)
-                    ordv = [s_.value for s_ in iter_nodes(fn.node) if isinstance(s_, ast.Assign) and norm(s_.targets[0]).endswith('.order')]
+                    ordv = [s_.value for s_ in iter_nodes(fn.node) if isinstance(s_, ast.Assign) and any(norm(t_).endswith('.order') for t_ in s_.targets)]
                     if norm(recv).endswith('.order') or (ordv and cnorm(routes.xp(fn, recv, bl[0], pmx)) == cnorm(routes.xp(fn, ordv[0], bl[0], pmx))):
                         good = True
         if good:
